@@ -207,5 +207,5 @@ static J run(const J& c)
 
 int main(int argc, char** argv)
 {
-    return vh::run_cases(argc, argv, run, 2);
+    return vh::run_cases(argc, argv, run, 5);
 }
